@@ -1,3 +1,105 @@
-(* C15/Props.v — property-level theorems only. *)
-From Coq Require Import List NArith ZArith.
-From BLB Require Import C15.Model.
+(* C15/Props.v — property-level theorems only (statements + `exact`), each followed by Print Assumptions.
+   Tags [FULL]/[PARTIAL]/[REFUTED] are read by bin/check.
+   as_found = the client code as it is in the repository; repaired = with fixes/F16 and fixes/F17 applied.
+   res_ok v c s: client result c equals the sparse file's result s (count/offset, cursor, error class, bytes);
+   for v = as_found the error class of a read in the F16 input class (s_full_tail) is nil instead of EOF. *)
+From Coq Require Import List NArith ZArith Bool.
+From BLB Require Import Gen.Consts C15.Core C15.Model C15.ProofsBytes C15.ProofsClient C15.ProofsStep.
+Import ListNotations.
+Open Scope N_scope.
+
+(* [REFUTED] the code as found does not refine the sparse file exactly, at the real tract length. Witness =
+   write one full tract, then ReadAt(len 20, off TractLength-10), which returns (10, nil) instead of (10, EOF).
+   This is finding F16 *)
+Theorem client_refines_sparse_refuted :
+  exists ops, forallb direct_op ops = true /\
+    ~ Forall2 (res_ok repaired) (run as_found c15_TractLength (init_state false) ops)
+                                (srun c15_TractLength sf_empty ops).
+Proof.
+  exists [OWriteAt 0%Z [(c15_TractLength, 7)]; OReadAt (Z.of_N c15_TractLength - 10)%Z 20].
+  split; [reflexivity|]. intro H. apply res_ok_repaired_err in H.
+  vm_compute in H. discriminate.
+Qed.
+Print Assumptions client_refines_sparse_refuted.
+
+(* [FULL] for every tract length, initial cache flag and every sequence of WriteAt, ReadAt, Write, Read, Seek,
+   ByteLength, EnableCache, Reopen and NewReadahead operations, every result of the client code as found equals
+   the sparse file's result, byte for byte, count, cursor and error class, except that a read starting inside a
+   blob whose length is a positive multiple of the tract length and running past its end reports no error
+   instead of EOF, its count and bytes still being right *)
+Theorem client_refines_sparse_except_full_tail :
+  forall tl c ops, 0 < tl -> forallb direct_op ops = true ->
+    Forall2 (res_ok as_found) (run as_found tl (init_state c) ops) (srun tl sf_empty ops).
+Proof. intros. apply run_refines; auto. apply R_init. Qed.
+Print Assumptions client_refines_sparse_except_full_tail.
+
+(* [FULL] with fixes F16 applied the client refines the sparse file with no exception, for every tract length,
+   cache flag and operation sequence, res_ok repaired being exact agreement *)
+Theorem client_refines_sparse_repaired :
+  forall tl c ops, 0 < tl -> forallb direct_op ops = true ->
+    Forall2 (res_ok repaired) (run repaired tl (init_state c) ops) (srun tl sf_empty ops).
+Proof. intros. apply run_refines; auto. apply R_init. Qed.
+Print Assumptions client_refines_sparse_repaired.
+
+(* [FULL] in every state related to a sparse file, ByteLength is the file length, which by sf_write is the
+   furthest byte ever written, and Seek from the end lands at that length plus the offset *)
+Theorem bytelength_is_max_end :
+  forall tl st f, R tl st f ->
+    fst (byte_length tl st) = slen f /\
+    forall d off, slen (sf_write f off d) = (if rlen d =? 0 then slen f else N.max (slen f) (off + rlen d)).
+Proof.
+  intros tl st f HR. split.
+  - destruct (byte_length tl st) as [l st1] eqn:Hb. destruct (byte_length_R tl st f l st1 HR Hb) as (-> & _). reflexivity.
+  - intros d off. unfold sf_write. destruct (rlen d =? 0); reflexivity.
+Qed.
+Print Assumptions bytelength_is_max_end.
+
+(* [FULL] results do not depend on the location cache, for two runs of the same operations that differ in the
+   initial cache flag and in the arguments of the EnableCache operations only *)
+Theorem cache_transparent :
+  forall v tl c1 c2 ops1 ops2, 0 < tl ->
+    Forall2 same_but_cache ops1 ops2 -> forallb direct_op ops1 = true ->
+    Forall2 res_same (run v tl (init_state c1) ops1) (run v tl (init_state c2) ops2).
+Proof. exact cache_transparent_lemma. Qed.
+Print Assumptions cache_transparent.
+
+(* [REFUTED] the read-ahead wrapper's Seek relative to the current position is not relative to the position its
+   reader has reached. Witness = 1000-byte blob, read 10 bytes through the wrapper, Seek(5, SEEK_CUR) returns
+   1005 instead of 15. This is finding F17 *)
+Theorem readahead_seek_cur_refuted :
+  exists ops off,
+    let st := exec as_found c15_TractLength (init_state false) ops in
+    (0 <= lpos st + off)%Z /\ fst (fst (ra_seek as_found c15_TractLength st off 1)) <> (lpos st + off)%Z.
+Proof.
+  exists [OWriteAt 0%Z [(1000, 7)]; ORaRead 10], 5%Z. vm_compute. split; discriminate.
+Qed.
+Print Assumptions readahead_seek_cur_refuted.
+
+(* [FULL] the wrapper's Seek from the start and from the end returns and reaches the same offset as a plain
+   Blob Seek on the sparse file, discarding the buffer, in every state and for every variant, and with fix F17
+   Seek relative to the current position is relative to the wrapper's logical position *)
+Theorem readahead_seek_agrees :
+  forall v tl st f off, R tl st f ->
+    ((0 <= off)%Z ->
+       fst (fst (ra_seek v tl st off 0)) = off /\ pos (snd (ra_seek v tl st off 0)) = off /\
+       rbuf (snd (ra_seek v tl st off 0)) = []) /\
+    ((0 <= Z.of_N (slen f) + off)%Z ->
+       fst (fst (ra_seek v tl st off 2)) = (Z.of_N (slen f) + off)%Z /\
+       pos (snd (ra_seek v tl st off 2)) = (Z.of_N (slen f) + off)%Z /\ rbuf (snd (ra_seek v tl st off 2)) = []) /\
+    (fix17 v = true -> (0 <= lpos st + off)%Z ->
+       fst (fst (ra_seek v tl st off 1)) = (lpos st + off)%Z /\
+       pos (snd (ra_seek v tl st off 1)) = (lpos st + off)%Z /\ rbuf (snd (ra_seek v tl st off 1)) = []).
+Proof.
+  intros v tl st f off HR. split; [|split].
+  - apply ra_seek_set_lemma.
+  - apply ra_seek_end_lemma; auto.
+  - apply ra_seek_cur_repaired_lemma.
+Qed.
+Print Assumptions readahead_seek_agrees.
+
+(* non-vacuity: a concrete run exercising holes over part of a tract, a whole tract and several tracts *)
+Example sparse_example :
+  map (fun x => (r_n x, r_err x)) (run repaired 16 (init_state true)
+     [OWriteAt 5%Z [(3, 9)]; OWriteAt 70%Z [(4, 8)]; OReadAt 0%Z 100; OLen; OSeek (-2)%Z 2%Z; ORead 10])
+  = [(3%Z, 0); (4%Z, 0); (74%Z, 1); (74%Z, 0); (72%Z, 0); (2%Z, 1)].
+Proof. vm_compute. reflexivity. Qed.
